@@ -282,6 +282,8 @@ def write_evidence(prop_id, mod, tier, seed, agg, wall, violations, extra):
         "regress_replayed": extra.get("regress"),
         "self_test": extra.get("self_test"),
     }
+    if extra.get("atheris"):
+        coverage["atheris"] = extra["atheris"]
     ev = {
         "property_id": prop_id,
         "tier": tier,
@@ -302,6 +304,57 @@ def write_evidence(prop_id, mod, tier, seed, agg, wall, violations, extra):
         json.dump(ev, fh, indent=1, sort_keys=True)
     os.replace(tmp, path)
     return path
+
+
+def run_atheris(prop_id, mod, tier, seed, t_end):
+    """
+    Thorough tier, second engine: N atheris processes (coverage-guided, empty corpus,
+    distinct -seed) over the same strategy/run_case. Returns (summary, replay or None).
+    """
+    import shutil
+    import subprocess
+
+    nproc = int(os.environ.get("VERIF_ATHERIS_PROCS", "4"))
+    runs = int(os.environ.get("VERIF_ATHERIS_RUNS", getattr(mod, "ATHERIS_RUNS", 40000)))
+    max_time = max(30, int(min(t_end - time.time(), int(os.environ.get("VERIF_ATHERIS_TIME", "900")))))
+    work = os.path.join(OUT_DIR, ".work", "fz")
+    os.makedirs(work, exist_ok=True)
+    procs = []
+    for i in range(nproc):
+        corpus = os.path.join(work, f"{prop_id}-{i}")
+        shutil.rmtree(corpus, ignore_errors=True)
+        os.makedirs(corpus)
+        stats = os.path.join(work, f"{prop_id}-{i}.stats.json")
+        replay = os.path.join(OUT_DIR, "replays", f"{prop_id}-atheris-s{seed}-{i}.json")
+        for f in (stats, replay):
+            if os.path.exists(f):
+                os.remove(f)
+        cmd = [sys.executable, os.path.join(VERIF_DIR, "ptv", "fuzz_target.py"), prop_id, tier, stats,
+               replay, f"-runs={runs}", f"-seed={seed * 16 + i + 1}", f"-max_total_time={max_time}",
+               f"-artifact_prefix={corpus}/", "-print_final_stats=1", corpus]
+        log = open(os.path.join(work, f"{prop_id}-{i}.log"), "w")
+        procs.append((subprocess.Popen(cmd, stdout=log, stderr=subprocess.STDOUT, cwd=VERIF_DIR), stats, replay, corpus, log))
+    summary = {"engine": "atheris/libFuzzer via hypothesis.fuzz_one_input, py-trie instrumented",
+               "processes": nproc, "runs_requested_each": runs, "corpus": "empty", "executions": 0,
+               "distinct_nontrivial_sum": 0, "exit_codes": [], "corpus_entries": 0}
+    failing = None
+    for p, stats, replay, corpus, log in procs:
+        try:
+            rc = p.wait(timeout=max_time + 120)
+        except subprocess.TimeoutExpired:
+            p.kill()
+            rc = -9
+        log.close()
+        summary["exit_codes"].append(rc)
+        if os.path.exists(stats):
+            sj = json.load(open(stats))
+            summary["executions"] += sj["executions"]
+            summary["distinct_nontrivial_sum"] += sj["distinct_nontrivial"]
+        summary["corpus_entries"] += len([f for f in os.listdir(corpus) if not f.startswith("crash-")])
+        if os.path.exists(replay) and failing is None:
+            failing = replay
+        shutil.rmtree(corpus, ignore_errors=True)
+    return summary, failing
 
 
 def main(argv=None):
@@ -496,6 +549,28 @@ def main(argv=None):
     if agg["evals"] == 0:
         print("HARNESS-ERROR: no case was executed")
         return 2
+    if tier == "thorough" and getattr(mod, "ATHERIS", False) and os.environ.get("VERIF_NO_ATHERIS") != "1":
+        try:
+            summary, failing = run_atheris(prop_id, mod, tier, seed, t_end)
+        except Exception:  # noqa: BLE001
+            print("HARNESS-ERROR in the atheris stage:\n" + traceback.format_exc())
+            return 2
+        extra["atheris"] = summary
+        wall = time.time() - t0
+        if failing is not None:
+            try:
+                run_replay(prop_id, failing)
+            except Violation as v:
+                print(f"violation (atheris): {v}")
+                agg["samples"] = [json.load(open(failing))["case"]] + agg["samples"]
+                write_evidence(prop_id, mod, tier, seed, agg, wall, 1, extra)
+                print(f"VIOLATION property={prop_id} replay={failing}")
+                return 1
+            print(f"HARNESS-ERROR: atheris recorded {failing} but it passes when replayed (flaky)")
+            return 2
+        if any(rc != 0 for rc in summary["exit_codes"]):
+            print(f"HARNESS-ERROR: an atheris process failed without a violation: {summary['exit_codes']}")
+            return 2
     path = write_evidence(prop_id, mod, tier, seed, agg, wall, 0, extra)
     top = sorted(agg["labels"].items(), key=lambda kv: -kv[1])[:8]
     print(
